@@ -103,8 +103,9 @@ def _body(S, t, part, fired_log):
             if at_event in ("ball_will_start", "ball_starting", "ball_started"):
                 pending_end[0] = sum(1 for x in stream if x[0] == "ball_ended")
         elif k == "hold_queue" and queue is not None:
-            queue.wait()
-            t.loop.call_later(hold, queue.clear)
+            if not queue.waiter:            # one handler registers one wait (two stimuli at the same point share it)
+                queue.wait()
+                t.loop.call_later(hold, queue.clear)
         elif k == "add_ball_in_play":
             g.balls_in_play += 2
         elif k == "slam_tilt":
